@@ -40,10 +40,13 @@ def write_replay(root, prop, full, d, unit_result, natives):
                     found = True
             except Exception as e:  # replay failure is not a verdict
                 doc["replay_error"] = f"{type(e).__name__}: {e}"
-        nat = natives.get(unit) if natives else None
-        if not found and nat and nat.get("failures"):
-            doc["replayed_input"] = nat["failures"][0]
-            found = True
+        if not found and natives:
+            # a concrete failing run of the real code found by the bounded native sweeps of this property
+            for nn, nat in natives.items():
+                if nat and nat.get("failures"):
+                    doc["replayed_input"] = dict(nat["failures"][0], native_check=nn)
+                    found = True
+                    break
         if not found:
             doc["note"] = "no-failing-input-found: the verifier's counter-model could not be turned into a concrete run of the real code"
     doc["failing_input_found"] = found
